@@ -184,3 +184,91 @@ Print Assumptions C04_src_pin_main_expand_globs.
 Print Assumptions C04_src_pin_main_expand_sources.
 Print Assumptions C04_src_pin_operations_tree_walker.
 Print Assumptions C04_src_pin_operations_new.
+
+(* ---- further functions on this property's path, pinned token for token as validated (dependency review after rounds 5 and 6:
+   each missed change had edited a pinned function that this property did not cite) ---- *)
+From XcpPins Require Import Pin_backup_get_backup_path Pin_backup_has_backup Pin_backup_is_num_backup Pin_backup_ls_file_dir Pin_backup_needs_backup Pin_backup_next_backup_num Pin_common_copy_owner Pin_common_copy_permissions Pin_common_copy_timestamps Pin_common_copy_xattr Pin_common_is_same_file Pin_common_sync Pin_feedback_new Pin_feedback_send Pin_linux_copy_file_bytes Pin_linux_copy_file_offset Pin_linux_copy_node Pin_linux_lseek Pin_linux_reflink Pin_linux_try_copy_file_range Pin_main_opts_check Pin_operations_copy_file Pin_operations_drop Pin_operations_finalise_copy Pin_parblock_queue_file_blocks Pin_parblock_queue_file_range Pin_paths_ignore_filter Pin_paths_parse_ignore.
+Theorem C04_src_pin_backup_get_backup_path : pin_unchanged name_backup_get_backup_path.
+Proof. exact pin_backup_get_backup_path. Qed.
+Theorem C04_src_pin_backup_has_backup : pin_unchanged name_backup_has_backup.
+Proof. exact pin_backup_has_backup. Qed.
+Theorem C04_src_pin_backup_is_num_backup : pin_unchanged name_backup_is_num_backup.
+Proof. exact pin_backup_is_num_backup. Qed.
+Theorem C04_src_pin_backup_ls_file_dir : pin_unchanged name_backup_ls_file_dir.
+Proof. exact pin_backup_ls_file_dir. Qed.
+Theorem C04_src_pin_backup_needs_backup : pin_unchanged name_backup_needs_backup.
+Proof. exact pin_backup_needs_backup. Qed.
+Theorem C04_src_pin_backup_next_backup_num : pin_unchanged name_backup_next_backup_num.
+Proof. exact pin_backup_next_backup_num. Qed.
+Theorem C04_src_pin_common_copy_owner : pin_unchanged name_common_copy_owner.
+Proof. exact pin_common_copy_owner. Qed.
+Theorem C04_src_pin_common_copy_permissions : pin_unchanged name_common_copy_permissions.
+Proof. exact pin_common_copy_permissions. Qed.
+Theorem C04_src_pin_common_copy_timestamps : pin_unchanged name_common_copy_timestamps.
+Proof. exact pin_common_copy_timestamps. Qed.
+Theorem C04_src_pin_common_copy_xattr : pin_unchanged name_common_copy_xattr.
+Proof. exact pin_common_copy_xattr. Qed.
+Theorem C04_src_pin_common_is_same_file : pin_unchanged name_common_is_same_file.
+Proof. exact pin_common_is_same_file. Qed.
+Theorem C04_src_pin_common_sync : pin_unchanged name_common_sync.
+Proof. exact pin_common_sync. Qed.
+Theorem C04_src_pin_feedback_new : pin_unchanged name_feedback_new.
+Proof. exact pin_feedback_new. Qed.
+Theorem C04_src_pin_feedback_send : pin_unchanged name_feedback_send.
+Proof. exact pin_feedback_send. Qed.
+Theorem C04_src_pin_linux_copy_file_bytes : pin_unchanged name_linux_copy_file_bytes.
+Proof. exact pin_linux_copy_file_bytes. Qed.
+Theorem C04_src_pin_linux_copy_file_offset : pin_unchanged name_linux_copy_file_offset.
+Proof. exact pin_linux_copy_file_offset. Qed.
+Theorem C04_src_pin_linux_copy_node : pin_unchanged name_linux_copy_node.
+Proof. exact pin_linux_copy_node. Qed.
+Theorem C04_src_pin_linux_lseek : pin_unchanged name_linux_lseek.
+Proof. exact pin_linux_lseek. Qed.
+Theorem C04_src_pin_linux_reflink : pin_unchanged name_linux_reflink.
+Proof. exact pin_linux_reflink. Qed.
+Theorem C04_src_pin_linux_try_copy_file_range : pin_unchanged name_linux_try_copy_file_range.
+Proof. exact pin_linux_try_copy_file_range. Qed.
+Theorem C04_src_pin_main_opts_check : pin_unchanged name_main_opts_check.
+Proof. exact pin_main_opts_check. Qed.
+Theorem C04_src_pin_operations_copy_file : pin_unchanged name_operations_copy_file.
+Proof. exact pin_operations_copy_file. Qed.
+Theorem C04_src_pin_operations_drop : pin_unchanged name_operations_drop.
+Proof. exact pin_operations_drop. Qed.
+Theorem C04_src_pin_operations_finalise_copy : pin_unchanged name_operations_finalise_copy.
+Proof. exact pin_operations_finalise_copy. Qed.
+Theorem C04_src_pin_parblock_queue_file_blocks : pin_unchanged name_parblock_queue_file_blocks.
+Proof. exact pin_parblock_queue_file_blocks. Qed.
+Theorem C04_src_pin_parblock_queue_file_range : pin_unchanged name_parblock_queue_file_range.
+Proof. exact pin_parblock_queue_file_range. Qed.
+Theorem C04_src_pin_paths_ignore_filter : pin_unchanged name_paths_ignore_filter.
+Proof. exact pin_paths_ignore_filter. Qed.
+Theorem C04_src_pin_paths_parse_ignore : pin_unchanged name_paths_parse_ignore.
+Proof. exact pin_paths_parse_ignore. Qed.
+Print Assumptions C04_src_pin_backup_get_backup_path.
+Print Assumptions C04_src_pin_backup_has_backup.
+Print Assumptions C04_src_pin_backup_is_num_backup.
+Print Assumptions C04_src_pin_backup_ls_file_dir.
+Print Assumptions C04_src_pin_backup_needs_backup.
+Print Assumptions C04_src_pin_backup_next_backup_num.
+Print Assumptions C04_src_pin_common_copy_owner.
+Print Assumptions C04_src_pin_common_copy_permissions.
+Print Assumptions C04_src_pin_common_copy_timestamps.
+Print Assumptions C04_src_pin_common_copy_xattr.
+Print Assumptions C04_src_pin_common_is_same_file.
+Print Assumptions C04_src_pin_common_sync.
+Print Assumptions C04_src_pin_feedback_new.
+Print Assumptions C04_src_pin_feedback_send.
+Print Assumptions C04_src_pin_linux_copy_file_bytes.
+Print Assumptions C04_src_pin_linux_copy_file_offset.
+Print Assumptions C04_src_pin_linux_copy_node.
+Print Assumptions C04_src_pin_linux_lseek.
+Print Assumptions C04_src_pin_linux_reflink.
+Print Assumptions C04_src_pin_linux_try_copy_file_range.
+Print Assumptions C04_src_pin_main_opts_check.
+Print Assumptions C04_src_pin_operations_copy_file.
+Print Assumptions C04_src_pin_operations_drop.
+Print Assumptions C04_src_pin_operations_finalise_copy.
+Print Assumptions C04_src_pin_parblock_queue_file_blocks.
+Print Assumptions C04_src_pin_parblock_queue_file_range.
+Print Assumptions C04_src_pin_paths_ignore_filter.
+Print Assumptions C04_src_pin_paths_parse_ignore.
